@@ -341,6 +341,13 @@ def make_jobs(tier, seed, build):
     for la in range(1, (4 if tier == "quick" else 6) + 1):
         for gname, name in YOUMEAN_NAMES:
             jobs.append({"id": "youmean:%d:%s" % (la, name), "kind": "youmean", "la": la, "grammar": gname, "name": name, "weight": la})
+    import itertools
+    for gname in PROLOGUE_GRAMMARS:
+        for n in (1, 2):
+            for lens in itertools.product(range(1, 5), repeat=n):
+                if sum(lens) > (5 if tier == "quick" else 7):
+                    continue
+                jobs.append({"id": "prologue:%s:%s" % (gname, ",".join(map(str, lens))), "kind": "prologue", "grammar": gname, "lens": list(lens), "shape": ()})
     d = tok.Decl("a", "b")
     for which in ("adjacently_available_from", "adjacent_scope", "ranges_next", "adjacent_eval"):
         for n in range(0, (2 if tier == "quick" else 3) + 1):
@@ -407,8 +414,67 @@ def run_youmean_job(job, build):
     return out
 
 
+PROLOGUE_GRAMMARS = {"am": "-ab=x", "g1": "-ab=0"}
+
+
+def run_prologue_job(job, build):
+    """run_inner itself on argv *bytes* (short-name table, State::construct with cluster disambiguation, the
+    ambiguity report rendered through Message::render and the core::fmt models); run_subparser is cut.
+    Obligation: no panic, no bound exhausted."""
+    from .C02 import new_text_exec
+    from mirsym.models import rda as _rda
+    prog = tok.load_program(build, "none")
+    ex = new_text_exec(prog, step_budget=1500000)
+    ex.models = dict(ex.models)
+    ex.models.update(FM.FMT_MODELS)
+    ex.models["OptionParser::run_subparser"] = lambda ex_, c, args: Opaque("proceed", (_rda(args[1]),))
+    g = CORPUS[job["grammar"]]
+    lens = job["lens"]
+    alpha = [ord(c) for c in PROLOGUE_GRAMMARS[job["grammar"]]]
+    out = {"stats": None, "cex": [], "inconclusive": [], "samples": [], "nontrivial": 0, "obligations": 0}
+
+    def harness(ex):
+        LA = ex.prog.layout
+        parser = ex.call(parse_callee(g.builder), [])
+        words = []
+        for ln in lens:
+            bs = [ex.fresh("b", 8) for _ in range(ln)]
+            for b in bs:
+                ex.assume(z3.Or(*[b == a for a in alpha]))
+            words.append(bs)
+        ex.c04_words = words
+        d = {"items": PyIter("vec_into", Seq(tuple(BStr(tuple(w)) for w in words)), 0), "name": NONE, "c_rev": NONE}
+        args = Adt("Args", 0, tuple(d[f] for f in LA.adts["Args"]["fields"]))
+        return ex.call(parse_callee("OptionParser::run_inner"), [Ref(Cell(parser, "p"), ()), args])
+
+    def on_path(ex, r):
+        out["obligations"] += 1
+        if ex.pc:
+            out["nontrivial"] += 1
+        if r.kind != "ok":
+            m = ex.model()
+            argv = [bytes(m.eval(b, model_completion=True).as_long() for b in w) for w in ex.c04_words]
+            out["cex"].append({"kind": "run_inner-panics", "info": str(r.info), "grammar": job["grammar"], "argv_hex": [a.hex() for a in argv],
+                               "shape": [a.decode("utf-8", "replace") for a in argv]})
+    try:
+        ex.explore(harness, on_path, max_paths=100000)
+    except (Unmodelled, BoundExceeded, ExecError) as e:
+        out["inconclusive"].append("%s %s [%s]" % (type(e).__name__, e, "/".join(getattr(e, "stack", None) or ex.callstack[-3:])))
+    out["stats"] = dict(ex.stats)
+    out["models_used"] = dict(ex.model_hits)
+    out["fn_hits"] = dict(ex.fn_hits)
+    if out["cex"]:
+        got = Replayer(build["sets"]["none"]["replay"]).run([(c["grammar"], [bytes.fromhex(h) for h in c["argv_hex"]], {}) for c in out["cex"]])
+        for c, (cls, pay) in zip(out["cex"], got):
+            c["native"] = [cls, pay[:300]]
+            c["reproduced"] = cls == "panic"
+    return out
+
+
 def run_job(job, build):
     k = job["kind"]
+    if k == "prologue":
+        return run_prologue_job(job, build)
     if k == "youmean":
         return run_youmean_job(job, build)
     if k == "render":
@@ -449,6 +515,12 @@ def finish(results, jobs, build, out, tier, seed, wall):
                     out.violation(c.get("finding_key") or ("complete:%s:%s" % (c["rev"], c["named"])), what, c)
                 else:
                     out.inconc("NONREPRO " + what)
+            elif kind == "prologue":
+                what = "run_inner on grammar %s argv=%r panics: %s (native: %s)" % (c["grammar"], c["shape"], c["info"], c.get("native"))
+                if c.get("reproduced"):
+                    out.violation("prologue:%s:%s" % (c["grammar"], ",".join(c["argv_hex"])), what, c)
+                else:
+                    out.inconc("NONREPRO " + what)
             elif kind == "youmean":
                 what = "typo suggestion for the unknown item %r against the declared name %r panics: %s (native, grammar %s: %s)" % (
                     bytes.fromhex(c["argv_hex"][0]).decode("utf-8", "replace"), c["shape"][0], c["info"], c["grammar"], c.get("native"))
@@ -463,7 +535,7 @@ def finish(results, jobs, build, out, tier, seed, wall):
             else:
                 out.violation("%s:%s" % (c["kind"], ",".join(map(str, c.get("shape", c.get("argv") or [])))), what, c)
     cov = ev["coverage"]
-    cov["other_jobs"] = {k: len([j for j in jobs if j["kind"] == k]) for k in ("pure", "complete", "loop", "kernel", "youmean")}
+    cov["other_jobs"] = {k: len([j for j in jobs if j["kind"] == k]) for k in ("pure", "complete", "loop", "kernel", "youmean", "prologue")}
     cov["other_paths"] = st["paths"]
     cov["purity_pairs"] = sum(r.get("pairs", 0) for r in other)
     cov["evaluations"] += st["queries"]
